@@ -137,6 +137,7 @@ type live struct {
 	headDisk int64  // number of files the model had seen then (a rotation changes it)
 	headGen  int
 	rotSeen  int // rotations of this live WAL seen so far
+	refused  int // writes the WAL refused (opSpec.MayRefuse)
 }
 
 const tick = time.Millisecond
@@ -565,6 +566,13 @@ type opSpec struct {
 	Kind    int
 	StepLen int
 	Gap     int64
+	// FixedTime (non-zero): the record goes through the exported encoder on the
+	// WAL's group with this timestamp - what BaseWAL.Write does with tmtime.Now -
+	// so that its encoded size is exact; a sync kind is followed by FlushAndSync.
+	FixedTime time.Time
+	// MayRefuse: an error of the write is an outcome (the writer's size limit),
+	// not a harness failure; the record then never existed.
+	MayRefuse bool
 }
 
 func stepString(id int64, n int) string {
@@ -696,6 +704,18 @@ func (lv *live) do(op opSpec) error {
 		err = lv.wal.Write(msg)
 		verb = "Write"
 	case opWriteSync, opEndSync, opPartSync, opEndZeroSync:
+		if !op.FixedTime.IsZero() {
+			verb = "Encode(fixed time)+FlushAndSync"
+			err = consensus.NewWALEncoder(lv.wal.Group()).Encode(&consensus.TimedWALMessage{Time: op.FixedTime, Msg: msg})
+			if err != nil {
+				break
+			}
+			if err = lv.wal.FlushAndSync(); err != nil {
+				return harnessErr{"FlushAndSync failed: " + err.Error()}
+			}
+			acked = true
+			break
+		}
 		err = lv.wal.WriteSync(msg)
 		acked = err == nil
 		verb = "WriteSync"
@@ -703,6 +723,14 @@ func (lv *live) do(op opSpec) error {
 		err = lv.wal.FlushAndSync()
 		acked = err == nil
 		verb = "FlushAndSync"
+	}
+	if err != nil && op.MayRefuse && r != nil && r.Idx == len(m.J)-1 {
+		// refused at write time: nothing reached the group
+		m.J = m.J[:len(m.J)-1]
+		h.Recs = h.Recs[:len(h.Recs)-1]
+		m.logf("%s of a %d-byte step REFUSED: %v", verb, op.StepLen, err)
+		lv.refused++
+		return lv.after(nil, 0, false)
 	}
 	if err != nil {
 		return harnessErr{"WAL operation " + verb + " failed: " + err.Error()}
